@@ -39,8 +39,14 @@ SKELS = [
     dict(name="two-blocks-connector", text="OCC{[<][<]C(N)C[>][>]}|schulz_zimm(100,80)|CC[Si]CC{[<][<]C(=O)C[>][>]}|log_normal(100,1.1)|[Si]", units=["[<]C(N)C[>]", "[<]C(=O)C[>]"], start=1.0),
     dict(name="zero-weight-start", text="{[][<]C(N)C[>]; [<|0|][H], [<]F[>]}|gauss(100,20)|CO", units=["[<]C(N)C[>]"], start="eg"),
     dict(name="telechelic-prefix-twice", text="OCC{[<][<]C(N)C[>][>]}|gauss(100,20)|CCO", units=["[<]C(N)C[>]"], start=1.0),
+    dict(name="chlorinated-unit-discrete-law", text="[H]{[<][<]C(Cl)C[>][>]}|flory_schulz(0.05)|CO", units=["[<]C(Cl)C[>]"], start=1.0),
+    dict(name="same-unit-in-adjacent-blocks", text="[H]{[<][<]C(N)C[>][>]}|uniform(20,120)|{[<][<]C(N)C[>][>]}|gauss(60,20)|CO", units=["[<]C(N)C[>]", "[<]C(N)C[>]"], start=1.0, splits=True),
     dict(name="poisson-block", text="[H]{[<][<]C(N)C[>][>]}|poisson(65)|CO", units=["[<]C(N)C[>]"], start=1.0),
 ]
+
+
+# skeletons with recorded known findings keep their historical signatures (one per skeleton); the others are replayed per chain length
+KNOWN_SKELS = ("endgroup-start", "prefix-sym", "two-blocks-connector")
 
 
 def bounds(tier):
@@ -127,6 +133,14 @@ def generate_member(g, mol, ns, skel, first=None):
     return r.smiles, masses
 
 
+def _foreign(smi):
+    """the same molecule with one atom exchanged for an element no token contains"""
+    for a, b in (("[Si]", "[Ge]"), ("Cl", "Br"), ("N", "P"), ("O", "S")):
+        if a in smi:
+            return smi.replace(a, b, 1)
+    raise ValueError(f"no atom to exchange in {smi}")
+
+
 def renumberings(smi, k=3):
     import random
 
@@ -162,7 +176,7 @@ def run_case(case, g, tier, res):
         def detail(label):
             def build(mv, c):
                 vals = gendrive.role_values(c, mv, roles)
-                return (f"C19:{label}:{skel['name']}", f"{label} [{skel['name']}: {text}] molecule {smi} (units per block {ns})",
+                return (f"C19:{label}:{skel['name']}" + ("" if skel["name"] in KNOWN_SKELS else f":n{'-'.join(map(str, ns))}"), f"{label} [{skel['name']}: {text}] molecule {smi} (units per block {ns})",
                         {"kind": "prob", "text": text, "smiles": smi, "ns": ns, "weights": vals, "label": label, "skel": skel["name"]})
             return build
 
@@ -179,6 +193,16 @@ def run_case(case, g, tier, res):
         ref = 1.0
         for (el, f), n, m in zip(cdfs, ns, masses):
             ref = ref * (f.cdf(n * m) - f.cdf((n - 1) * m))
+        if skel.get("splits"):
+            # adjacent blocks of the same unit: the same molecule arises from every split of the total number of units over the
+            # two blocks; the generator's law of the molecule is the sum over the splits
+            tot_units = sum(ns)
+            (e0, f0), (e1, f1) = cdfs
+            m0 = masses[0]
+            ref = 0.0
+            for a in range(1, tot_units):
+                b = tot_units - a
+                ref = ref + (f0.cdf(a * m0) - f0.cdf((a - 1) * m0)) * (f1.cdf(b * m0) - f1.cdf((b - 1) * m0))
         if isinstance(first, g.Stochastic):
             # generation: pick a start end group e with probability w_e / sum w, grow n units, cap the other end. The law of the
             # molecule sums over the starts that yield it (decided by generating with each start forced and comparing SMILES)
@@ -196,11 +220,13 @@ def run_case(case, g, tier, res):
         for (el, f), n, m in zip(cdfs, ns, masses):
             args = sorted(set(round(x, 6) for x, _ in f.calls))
             want = sorted(set([round(n * m, 6), round((n - 1) * m, 6)]))
+            if skel.get("splits"):
+                want = sorted(set(round(k * m, 6) for k in range(0, sum(ns) + 1)))
             c.prove(all(any(abs(a - w) < 1e-6 for w in want) for a in args) or not args, "interval probability is cdf(value) - cdf(previous)",
                     detail("the mass interval handed to the distribution is not [mass before the last unit, mass after it]"))
         c.prove(p == ref, "ensemble probability equals the generator's law", detail("ensemble probability differs from the generation probability"), fatal=False)
         # foreign atom
-        foreign = smi.replace("[Si]", "[Ge]") if "[Si]" in smi else smi.replace("N", "P", 1)
+        foreign = _foreign(smi)
         p0, _ = g.get_ensemble_prob(foreign, mol)
         c.prove(p0 == 0, "foreign molecule has probability 0", detail("a molecule outside the ensemble gets a positive probability"))
         for s2 in renumberings(smi, 2 if tier == "quick" else 3):
@@ -221,7 +247,7 @@ def replay(rp, gb):
     p = gb.get_ensemble_prob(smi, mol)[0]
     label = rp["label"]
     if label.startswith("a molecule outside the ensemble"):
-        foreign = smi.replace("[Si]", "[Ge]") if "[Si]" in smi else smi.replace("N", "P", 1)
+        foreign = _foreign(smi)
         p0 = gb.get_ensemble_prob(foreign, mol)[0]
         return p0 != 0, f"foreign {foreign}: {p0}"
     if label.startswith("the value depends on the atom order"):
@@ -244,5 +270,15 @@ def replay(rp, gb):
             elif name == "LogNormal":
                 kw = {"M": el.distribution._M, "D": el.distribution._D}
             ref *= float(d.cdf(n * m, **kw) - d.cdf((n - 1) * m, **kw))
+    if rp.get("skel") == "same-unit-in-adjacent-blocks":
+        els = [el for el in mol._elements if isinstance(el, gb.Stochastic)]
+        m0 = frag_mass(els[0].repeat_tokens[0])
+
+        def pr(el, n):
+            d = el.distribution._distribution
+            return float(d.cdf(n * m0) - d.cdf((n - 1) * m0))
+
+        tot_units = sum(ns)
+        ref = sum(pr(els[0], a) * pr(els[1], tot_units - a) for a in range(1, tot_units))
     bad = abs(p - ref) > 1e-6 * max(abs(p), abs(ref)) and max(abs(p), abs(ref)) > 1e-300
     return bad, f"get_ensemble_prob({smi}) = {p}; generator's law with the real distribution = {ref}"
